@@ -199,8 +199,8 @@ def _fallback(ctx, f):
               node=fb)
     # override: all models forced -> feat_total = 0 (never falls back)
     ov = cfg.guards(am[0])
-    ok_o = any(ast.unparse(g[0]) == "not all([m.override for m in models])"
-               and g[1] for g in ov)
+    from ..astutil import guard_says
+    ok_o = guard_says(ov, "all([m.override for m in models])", False)
     zero = [n for n in ast.walk(f.node) if isinstance(n, ast.Assign)
             and ast.unparse(n.targets[0]) == tot_name
             and const_value(n.value) == 0]
